@@ -878,6 +878,13 @@ regp_recv(RegP *p, RPMaybeFrame *mf)
         return -EINVAL;
     }
 
+    if (cs.buffer.data == NULL) {
+        /* Not a single octet was received (an empty frame): there is no
+         * header that could be parsed. */
+        mf->error.id = EBADMSG;
+        return regp_resp_meta(p, RP_META_EHEADERENC);
+    }
+
     int rc = parse_frame(&cs.buffer);
 
     if (rc < 0) {
